@@ -35,6 +35,7 @@ def r3(run, tree):
         run.unresolved(MAP + "::reduction-axis", fi.where(), "cannot locate the depth axis of the kernel output: %s" % e)
         return
     mf.check_map(run, tree, aspects=("rendered",), depth_axis=nz_pos - 1)
+    mf.check_map_history(run, tree)
     mr.check_kernel_footprint(run, tree)
 
 
